@@ -25,7 +25,9 @@ func (runInfo *runInfoStruct) funcExpr() {
 
 		// add Params to newEnv
 		for i, param := range funcExpr.Params {
-			runInfo.env.DefineValue(param, args[i])
+			// a parameter is bound like a name, whoever calls (a struct or array handed in by a
+			// Go caller gets a cell of its own, so its fields can be stored through the parameter)
+			runInfo.env.DefineValue(param, detachValue(args[i]))
 		}
 
 		// run function statements
